@@ -338,9 +338,156 @@ Definition expr_is_call_lit (e : expr) : bool :=
   match e with EConst (CStr s) => str_eqb s (lit "__call__") | _ => false end.
 Definition last_is_call_lit (args : list expr) : bool :=
   match rev args with a :: _ => expr_is_call_lit a | [] => false end.
-Definition hasattr_step (e : expr) : expr :=
+Definition hasattr_fires (cfg : hasattr_cfg) (a : expr) (rest : list expr) : bool :=
+  last_is_call_lit (a :: rest) && (negb (ha_two_args cfg) || match rest with [_] => true | _ => false end).
+Definition hasattr_step (cfg : hasattr_cfg) (e : expr) : expr :=
   match e with
-  | ECall BHasattr (a :: rest) => if last_is_call_lit (a :: rest) then ECall BCallable [a] else e
+  | ECall BHasattr (a :: rest) => if hasattr_fires cfg a rest then ECall BCallable [a] else e
   | _ => e
   end.
-Definition rw_hasattr : expr -> expr := bu hasattr_step.
+Definition rw_hasattr (cfg : hasattr_cfg) : expr -> expr := bu (hasattr_step cfg).
+
+(** * top-down transformers whose [leave_X] works on the ORIGINAL node: where the node function answers, the node is replaced
+    by something built from its original parts (rewrites made below it are discarded); elsewhere the children are visited *)
+Fixpoint td (f : expr -> option expr) (e : expr) : expr :=
+  match f e with
+  | Some e' => e'
+  | None =>
+      match e with
+      | EName _ | EConst _ | EType _ => e
+      | ETuple es => ETuple (map (td f) es)
+      | EList es => EList (map (td f) es)
+      | ESet es => ESet (map (td f) es)
+      | EMeth r m args => EMeth r m (map (td f) args)
+      | ECall g args => ECall g (map (td f) args)
+      | EBool p o l r => EBool p o (td f l) (td f r)
+      | ENot p a => ENot p (td f a)
+      | ECmp p l rest => ECmp p (td f l) (map (fun cb => (fst cb, td f (snd cb))) rest)
+      | EListComp elt x it => EListComp (td f elt) x (td f it)
+      | EGen p elt x it => EGen p (td f elt) x (td f it)
+      | EFloorDiv l r => EFloorDiv (td f l) (td f r)
+      | EJuxt n a => EJuxt n (td f a)
+      end
+  end.
+Definition children (e : expr) : list expr :=
+  match e with
+  | EName _ | EConst _ | EType _ => []
+  | ETuple es | EList es | ESet es => es
+  | EMeth _ _ args | ECall _ args => args
+  | EBool _ _ l r | EFloorDiv l r => [l; r]
+  | ENot _ a | EJuxt _ a => [a]
+  | ECmp _ l rest => l :: map snd rest
+  | EListComp elt _ it | EGen _ elt _ it => [elt; it]
+  end.
+(** some node of the tree (every node is visited by libcst, also below a node whose rewrite discards what happened there) *)
+Fixpoint any_sub (bad : expr -> bool) (e : expr) : bool :=
+  let anyb := fix anyb (es : list expr) : bool := match es with [] => false | a :: t => any_sub bad a || anyb t end in
+  bad e ||
+  match e with
+  | EName _ | EConst _ | EType _ => false
+  | ETuple es | EList es | ESet es => anyb es
+  | EMeth _ _ args | ECall _ args => anyb args
+  | EBool _ _ l r | EFloorDiv l r => any_sub bad l || any_sub bad r
+  | ENot _ a | EJuxt _ a => any_sub bad a
+  | ECmp _ l rest => any_sub bad l ||
+                     (fix go (rs : list (cmpop * expr)) : bool :=
+                        match rs with [] => false | (_, b) :: t => any_sub bad b || go t end) rest
+  | EListComp elt _ it | EGen _ elt _ it => any_sub bad elt || any_sub bad it
+  end.
+
+(** * fix_empty_sequence_comparison.py
+    [leave_Comparison] works on the original node (`del updated_node`) and returns the original node when it does not
+    match, so nothing is ever rewritten below a comparison.  `x == []` -> `not x`; `x != []` -> `bool(x)` (text built from
+    `x.value`: raises for nodes without that attribute), or the bare `x` when the comparison is the test of an if / assert. *)
+Definition is_empty_seq (e : expr) : bool := match e with EList [] | ETuple [] => true | _ => false end.
+Inductive es_action :=
+| ES_none
+| ES_not (p : bool) (lit x : expr)      (* (lit == x) -> not x *)
+| ES_bool (lit x : expr)                (* (lit != x) -> bool(x) *)
+| ES_bare (lit x : expr)                (* if lit != x: -> if x: *)
+| ES_raises.                            (* `comp_var.value` raises AttributeError: the file is left unchanged *)
+Definition empty_seq_action (in_test : bool) (e : expr) : es_action :=
+  match e with
+  | ECmp p l [(o, c)] =>
+      if is_empty_seq l || is_empty_seq c then
+        let x := if is_empty_seq l then c else l in
+        let lt := if is_empty_seq l then l else c in
+        match o with
+        | Eq => ES_not p lt x
+        | NotEq => if in_test then ES_bare lt x else if has_value_attr x then ES_bool lt x else ES_raises
+        | _ => ES_none
+        end
+      else ES_none
+  | _ => ES_none
+  end.
+Definition empty_seq_new (cfg : empty_seq_cfg) (a : es_action) (e : expr) : expr :=
+  match a with
+  | ES_not p _ x => ENot (es_parens cfg && p) x
+  | ES_bool _ x => ECall BBool [x]
+  | ES_bare _ x => x
+  | ES_none | ES_raises => e
+  end.
+Definition empty_seq_f (cfg : empty_seq_cfg) (e : expr) : option expr :=
+  match e with
+  | ECmp _ _ _ => Some (empty_seq_new cfg (empty_seq_action false e) e)
+  | _ => None
+  end.
+(** [in_test]: the expression is the test of an `if` (its parent is the If node) *)
+Definition rw_empty_seq (cfg : empty_seq_cfg) (in_test : bool) (e : expr) : expr :=
+  match e with
+  | ECmp _ _ _ => empty_seq_new cfg (empty_seq_action in_test e) e
+  | _ => td (empty_seq_f cfg) e
+  end.
+Definition empty_seq_raises (e : expr) : bool :=
+  match empty_seq_action false e with ES_raises => true | _ => false end.
+Definition empty_seq_crashes (in_test : bool) (e : expr) : bool :=
+  (negb in_test && empty_seq_raises e) || existsb (any_sub empty_seq_raises) (children e).
+Definition empty_seq_file (cfg : empty_seq_cfg) (in_test : bool) (e : expr) : expr :=
+  if empty_seq_crashes in_test e then e else rw_empty_seq cfg in_test e.
+
+(** * literal_or_new_object_identity.py: `x is <literal or new object>` -> `x == ...` on the ORIGINAL node
+    (`original_node.with_deep_changes`); other comparisons return the updated node *)
+Definition is_literal_or_new (e : expr) : bool :=
+  match e with
+  | EList _ | ETuple _ | ESet _ => true
+  | EConst (CInt z) => (0 <=? z)%Z         (* a negative literal is a UnaryOperation *)
+  | EConst (CStr _) => true
+  | ECall BSet _ => true                   (* builtin set(...) / list / tuple / dict *)
+  | _ => false
+  end.
+Definition identity_f (e : expr) : option expr :=
+  match e with
+  | ECmp p l [(o, c)] =>
+      if is_literal_or_new l || is_literal_or_new c then
+        match o with
+        | Is => Some (ECmp p l [(Eq, c)])
+        | IsNot => Some (ECmp p l [(NotEq, c)])
+        | _ => None
+        end
+      else None
+  | _ => None
+  end.
+Definition rw_identity : expr -> expr := td identity_f.
+
+(** * str_concat_in_seq_literal.py: inside list / tuple / set displays an implicitly concatenated string becomes one element
+    per literal ([EJuxt n "s"] stands for 2+n adjacent copies of the literal "s") *)
+Definition flatten_element (a : expr) : list expr :=
+  match a with
+  | EJuxt n (EConst (CStr s)) => N.iter n (fun l => EConst (CStr s) :: l) [EConst (CStr s); EConst (CStr s)]
+  | _ => [a]
+  end.
+Definition flatten_elements (es : list expr) : list expr := flat_map flatten_element es.
+Definition str_concat_step (e : expr) : expr :=
+  match e with
+  | EList es => EList (flatten_elements es)
+  | ETuple es => ETuple (flatten_elements es)
+  | ESet es => ESet (flatten_elements es)
+  | _ => e
+  end.
+Definition str_concat_f (e : expr) : option expr :=
+  match e with
+  | EList _ | ETuple _ | ESet _ => Some (str_concat_step e)      (* pinned: the elements of the ORIGINAL node *)
+  | _ => None
+  end.
+Definition rw_str_concat (cfg : str_concat_cfg) : expr -> expr :=
+  if sc_updated cfg then bu str_concat_step else td str_concat_f.
